@@ -72,7 +72,7 @@ def check(prop, tier, replay=None):
             r = recs[v['id'] - 1]
             steps = [{k: s.get(k, []) for k in ('a', 'upd', 'jobs', 'edited')} for s in r['steps']]
             violations.append(dict(sig=dict(a=v['a'], fields=sorted(v['fields'])),
-                                   replay=dict(property=prop, steps=steps, deviation=v, observed=(r['steps'][v['k'] - 1].get('post') if v['a'] not in ('read', 'snapshot') else v.get('read'))),
+                                   replay=dict(property=prop, steps=steps, deviation=v, observed=(r['steps'][v['k'] - 1].get('post') if v['a'] not in ('read', 'snapshot', 'api-read') else v.get('read'))),
                                    text='behaviour %d step %s (%s): %s' % (v['id'], v['k'], v['a'], sorted(v['fields']))))
         if crash:
             violations.append(dict(sig=dict(a='read', fields=['fatal-concurrent-map-access']),
